@@ -52,9 +52,15 @@ where
     pub(crate) async fn run(mut self) {
         #[cfg(pearl_verif)]
         let _verif_worker_guard = crate::verif::WorkerGuard::enter();
+        #[cfg(pearl_verif)]
+        crate::verif::event("wstart", &[], None);
         loop {
             #[cfg(pearl_verif)]
             crate::verif::PROBE.deferred.store(self.deferred_index_dump_info.is_some() as i64, Ordering::SeqCst);
+            #[cfg(pearl_verif)]
+            crate::verif::event("wstate", &[("deferred", self.deferred_index_dump_info.is_some() as u64),
+                ("deadline", self.next_deadline.is_some() as u64),
+                ("busy", self.index_dump_task.as_ref().map_or(false, |task| !task.is_finished()) as u64)], None);
             if self.index_dump_task.as_ref().map_or(false, |task| task.is_finished()) {
                 // Complete task if it is already finished
                 complete_task(&mut self.index_dump_task, "index_dump_task").await;
@@ -172,6 +178,8 @@ where
             }
             OperationType::TryUpdateActiveBlob => {
                 if self.try_update_active_blob().await? {
+                    #[cfg(pearl_verif)]
+                    crate::verif::event("wupdate", &[("switched", 1)], None);
                     // Dump due to an active BLOB switch can overlap with a deferred dump due to deletion. 
                     // That can result in performance degradation. 
                     // Therefore, if a deferred dump is registered, then we attach to it
@@ -212,22 +220,32 @@ where
     }
 
     async fn process_deferred_blob_index_dump(&mut self) -> Result<()> {
+        #[cfg(pearl_verif)]
+        let mut verif_outcome = 0u64; // 0 nothing deferred, 1 not due, 2 dump started, 3 dump task busy
         if let Some(deferred) = &self.deferred_index_dump_info {
             let min = self.inner.config().deferred_min_time();
             let max = self.inner.config().deferred_max_time();
             if deferred.last_time.elapsed() >= min || deferred.first_time.elapsed() >= max {
                 if self.try_run_old_blob_indexes_dump_task().await {
+                    #[cfg(pearl_verif)]
+                    { verif_outcome = 2; }
                     self.deferred_index_dump_info = None;
                 } else {
+                    #[cfg(pearl_verif)]
+                    { verif_outcome = 3; }
                     // The dump procedure is already running, but this does not guarantee that the dump for the desired blob will be made in it. 
                     // Therefore, we defer the dump procedure once more
                     self.deferred_index_dump_info = Some(Box::new(DeferredEventData::new()));
                 }
             } else {
+                #[cfg(pearl_verif)]
+                { verif_outcome = 1; }
                 let next_deadline = deferred.next_deadline(min, max);
                 self.update_deadline(next_deadline);
             }
         }
+        #[cfg(pearl_verif)]
+        crate::verif::event("wtimer_end", &[("outcome", verif_outcome)], None);
 
         Ok(())
     }
@@ -237,8 +255,12 @@ where
     async fn try_run_old_blob_indexes_dump_task(&mut self) -> bool {
         if self.index_dump_task.as_ref().map_or(false, |task| !task.is_finished()) {
             // Dump task is in progress. Avoid starting second one
+            #[cfg(pearl_verif)]
+            crate::verif::event("wbusy", &[("busy", 1)], None);
             return false;
         }
+        #[cfg(pearl_verif)]
+        crate::verif::event("wbusy", &[("busy", 0)], None);
 
         complete_task(&mut self.index_dump_task, "index_dump_task").await;
 
@@ -248,6 +270,13 @@ where
         let task = tokio::spawn(async move {
             #[cfg(pearl_verif)]
             let _verif_gauge = verif_gauge;
+            #[cfg(pearl_verif)]
+            {
+                inner.try_dump_old_blob_indexes().await;
+                crate::verif::event("wtask_end", &[], None);
+                return;
+            }
+            #[allow(unreachable_code)]
             inner.try_dump_old_blob_indexes().await
         });
 
